@@ -37,8 +37,10 @@ def seeds():
     g["name"] = "sg"
     yield "gated", g, {"e0": ["prov", "e0"]}
     yield "cyclic", dict(T.counter_loop(2, True, "route", True), name="sc"), {"count": 0}
-    inner = T.prog([T.fn("ib", ["x", "k"], ["y"], defaults={"k": ["dflt", "k"]})], name="inr")
-    yield "nested", T.prog([T.gnode("inr", inner), T.fn("oc", ["y"], ["z0"])], name="sn"), {"x": ["prov", "x"]}
+    # the inner graph carries a BINDING, and the outer graph has a branch that does not involve the nested node (so that a
+    # selection can leave the nested node out): computing the outer spec must not write the inner binding into the outer graph
+    inner = T.prog([T.fn("ib", ["x", "k"], ["y"])], name="inr", bind={"k": ["bound", "k"]})
+    yield "nested", T.prog([T.gnode("inr", inner), T.fn("ou", ["w"], ["u0"]), T.fn("oc", ["y"], ["z0"])], name="sn"), {"x": ["prov", "x"], "w": ["prov", "w"]}
 
 
 def snap(obj, h, run_inputs):
@@ -193,6 +195,12 @@ class World:
         self.run_inputs = ins
         self.objs = [self.g0, nodes_out[0], nodes_out[-1]]
         from ..dsl import build_node
+
+        first = prog["nodes"][0]
+        if first["kind"] != "graph":
+            # a node object that has NEVER been used (not in any graph, no lookup made): whether the receiver was used
+            # before a derivation must not matter (eager world: snapshotted first; lazy world: derived from untouched)
+            self.objs[1] = build_node(dict(first, id=first["id"] + "_fresh", name=first["id"], fname=first["id"]), self.h)
 
         out0 = self.g0.outputs[0]
         self.extra = build_node(T.fn("xtra", [out0], ["xo"]), self.h)
